@@ -812,6 +812,35 @@ def build_node(node, ctx, htf, plug_map=None):
     return htf.BranchSequence(_mk_cond(node['cond'], htf), *kids(node['c']), name='b%d' % node['id'])
   if t == 'subtest':
     return htf.Subtest('s%d' % node['id'], *kids(node['c']))
+  if t == 'custom':
+    from openhtf.core import phase_nodes as _pn  # pylint: disable=g-import-not-at-top
+
+    class StationStep(_pn.PhaseNode):
+      """A node type of the user's own (nothing in the executor knows how to run it)."""
+
+      @property
+      def name(self):
+        return 'custom%d' % node['id']
+
+      def _asdict(self):
+        return {'name': self.name}
+
+      def copy(self):
+        return self
+
+      def with_args(self, **kwargs):
+        return self
+
+      def with_plugs(self, **subplugs):
+        return self
+
+      def load_code_info(self):
+        return self
+
+      def apply_to_all_phases(self, func):
+        return self
+
+    return StationStep()
   if t == 'group' and node.get('via'):
     creator = htf.PhaseGroup.with_context((x for x in kids(node['s'])), (x for x in kids(node['td'])))
     if node['via'] == 'context-second':
